@@ -506,6 +506,11 @@ def check_executor_loops(rep, core, rid='R01.e'):
                     for vn in ('Suspended', 'Completed'):
                         tgt = next((b_ for v, b_ in st['arms'] if v == names.get(vn)), st['otherwise'])
                         ok_rd = ok_rd and bool(names) and quiescent_after([tgt])
+            # ... and never without having looked at all: whoever calls run_all may have queued work that no other thread will see
+            # (a thread already inside may have made its last look), so no return is reachable from the entry without finding both queues empty
+            rep.expect(rid, quiescent_after([0]), 'run_all-looks-before-return', 'every return of run_all follows a look at both queues that found them empty',
+                       'run_all can return without having looked at the queues (e.g. because another thread is "already running" it): work queued by '
+                       'this caller just after that thread\'s last look is run by nobody and its effects are returned by no call')
             rep.expect(rid, n_sp >= 1 and ok_sp, 'run_all-flag-after-spawned',
                        'after running a newly spawned task, run_all returns only after finding both queues empty again',
                        'run_all can run a newly spawned task and return without looking at both queues again')
